@@ -359,7 +359,9 @@ fn frame_matrix(e: &Env, tier: Tier, a: &mut Acc) {
                         a.found.push(Found { clause: "C12.role_writes_only_its_fields".into(), sig: format!("{}:{:?}", kind, reg), detail: format!("{} ({:?}) changed bank region {:?}", c.name, c.role, reg), replay: rep.clone() });
                     }
                 }
-                let bad_bits = d.flag_bits_changed & !allowed_flag_bits(c.role);
+                // (the risk admin may mark a wind-down complete only on a bank the group admin opened for token-less repayment)
+                let role_bits = if c.role == RoleMask::RiskForceComplete && world::bank(&s0, &bk).flags & TOKENLESS_REPAYMENTS_ALLOWED == 0 { 0 } else { allowed_flag_bits(c.role) };
+                let bad_bits = d.flag_bits_changed & !role_bits;
                 if bad_bits != 0 {
                     a.found.push(Found { clause: "C12.role_writes_only_its_flags".into(), sig: format!("{}:bits", kind), detail: format!("{} ({:?}) changed bank flag bits {:#b} outside its remit ({:#b} -> {:#b})", c.name, c.role, bad_bits, world::bank(&s0, &bk).flags, world::bank(&t, &bk).flags), replay: rep.clone() });
                 }
